@@ -1,7 +1,11 @@
 /-
 Tie 1 (regenerated facts), C10: every place where gen/ and internal/plugin range over a Go map
 is one of the classified sites below — each with the reason the iteration order cannot reach
-the output. A new unsorted map range (e.g. a dropped `sortStringKeys`) makes `GenSites` differ
+the output. The fact includes the calls made in the loop body: what a loop collects may be sorted
+afterwards and the order still be observable through a call with a side effect (finding D75:
+`g.Import` handed out import names inside the range over `m.Includes`; the first classification
+of that site, written before the calls were part of the fact, was wrong). A new unsorted map range
+(e.g. a dropped `sortStringKeys`) or a new call inside a classified loop makes `GenSites` differ
 and breaks `sites_classified`.
 -/
 import ThriftVerif.Facts.GenSites
@@ -11,13 +15,18 @@ open ThriftVerif.Facts
 
 /-- (file, function, ranged expression, why the order is irrelevant). -/
 def classifiedGen : List (String × String × String × String) := [
-  ("embedidl.go", "embedIDL", "m.Includes", "collects import aliases into a slice that is sorted before use (renderSorted); include names are unique per file, so alias assignment cannot collide"),
-  ("generate.go", "Generate", "files", "write loop: independent writes of distinct paths; contents were fixed before the loop"),
-  ("generate.go", "mergeFiles", "src", "insertion with conflict detection folded over the entries (mergeConflict / merge_result order-irrelevant)")]
+  ("embedidl.go", "embedIDL", "m.Includes | body calls: append, i.Package, wrapGenerateError",
+   "collects import PATHS (i.Package is a pure path computation; no import name is handed out inside the loop — finding D75, repaired) into a slice that is sorted before the packages are imported"),
+  ("generate.go", "Generate", "files | body calls: filepath.Dir, filepath.Join, fmt.Errorf, os.MkdirAll, os.WriteFile",
+   "write loop: independent writes of distinct, prefix-free paths; contents were fixed before the loop"),
+  ("generate.go", "mergeFiles", "src | body calls: addFile, multierr.Append",
+   "insertion with conflict detection folded over the entries (mergeConflict / merge_result order-irrelevant)")]
 
 def classifiedPlugin : List (String × String × String × String) := [
-  ("multi.go", "MultiServiceGenerator.Generate", "res.Files", "merge under a mutex with conflict detection (mergeConflict order-irrelevant); only the text of a conflict error can depend on the order"),
-  ("transport.go", "serviceGenerator.Generate", "res.Files", "validation loop (rejects paths containing ..): a conjunction over entries")]
+  ("multi.go", "MultiServiceGenerator.Generate", "res.Files | body calls: filepath.Join, fmt.Errorf, string",
+   "merge under a mutex with conflict detection (mergeConflict order-irrelevant); only the text of a conflict error can depend on the order"),
+  ("transport.go", "serviceGenerator.Generate", "res.Files | body calls: fmt.Errorf, strings.Contains",
+   "validation loop (rejects paths containing ..): a conjunction over entries")]
 
 theorem sites_classified :
     GenSites.genMapRangeSites = classifiedGen.map (fun s => (s.1, s.2.1, s.2.2.1)) ∧
